@@ -107,6 +107,7 @@ def handleDecl (P : Prims) (j : Json) : Json :=
       | [] => false
       | [t] => (itemsOf v).any (fun x => typeOf x != t.origin)
       | ts => (List.zip ts (itemsOf v)).any (fun (t, x) => typeOf x != t.origin))
+  if bool! (fld j "nomodel") then Json.mkObj [("validators", vJ), ("unmodelled", Json.str "mapping value")] else
   if inexact then Json.mkObj [("validators", vJ), ("unmodelled", Json.str "item of another type (conversion)")] else
   let d := declOf mro args acc post
   let originOk : PyVal → Bool := fun x => Py.isinstance x origin
